@@ -2,7 +2,10 @@
      hist P:<id>:<key|->:<sn|->:<persisted sn|->:<iid.fmt,...|->:<sig 0|1> ...
           A:<hdr>:<body> | R:<id>:<sn> (regular adv) | O:<id>:<sn> (populate) | U:<id>:<sn> (_update_state_num) | X (restart) | K:<id>:<key> (key regeneration)
           | EB:<id>:<g> (connected event up to the key request) | EE:<id>:<g>:<key|fail> (its completion)
-          | LB:<id> (poll starts) | LE:<id>:<n|fail> (poll ends) ...
+          | LB:<id> (poll starts) | LE:<id>:<n|fail> (poll ends)
+          | DB:<id>:<iid.fmt,...|->:<sig 0|1>:<keep 0|1> (database replaced) | RL:<id> (pairing loaded again)
+          | CB:<id>:<sn> (regular adv with a higher c#: re-read starts) | CE:<id>:<iid.fmt,...|->:<sig>:<g> (re-read done)
+          | I:<id> (initially: the controller holds a discovery for id) ...
    body = S.<key>.<ctr>.<aad>.<pt> | J | H.<n,n,...|-> | E
    answer: one token per event  <outcome>/<calls|->/<sn,sn,...>/<psn,psn,...>/<fb 0|1>/<key,key,...>  (description / persisted number and key of every pairing, - = None; fb = falls_back)
      val <fmt> <hex>      -> from_bytes on its own *)
@@ -44,26 +47,35 @@ let keys_str c = Stdlib.String.concat "," (Stdlib.List.map (fun p -> match p.Bca
 let handle = function
   | "hist" :: toks ->
       let ps = Stdlib.List.filter (fun t -> t.[0] = 'P') toks in
-      let evs = Stdlib.List.filter (fun t -> t.[0] <> 'P') toks in
-      let c = ref (Stdlib.List.map pairing_of ps) in
+      let is_init t = Stdlib.String.length t > 2 && t.[0] = 'I' && t.[1] = ':' in
+      let inits = Stdlib.List.filter is_init toks in
+      let evs = Stdlib.List.filter (fun t -> t.[0] <> 'P' && not (is_init t)) toks in
+      let st = ref { BcastDb.x_c = Stdlib.List.map pairing_of ps;
+                     x_disc = Stdlib.List.map (fun t -> bytes_of_hex (Stdlib.String.sub t 2 (Stdlib.String.length t - 2))) inits } in
+      let xo l = Stdlib.List.map (fun o -> BcastDb.XOp o) l in
       let outs = Stdlib.List.map (fun t ->
         let ops = match split ':' t with
-          | ["A"; hdr; body] -> [Bcast.OAdv (bytes_of_hex hdr, body_of body)]
-          | ["R"; id; sn] -> [Bcast.OPlain (bytes_of_hex id, n_of_dec sn)]
-          | ["O"; id; sn] -> [Bcast.OPopulate (bytes_of_hex id, n_of_dec sn)]
-          | ["U"; id; sn] -> [Bcast.OUpdate (bytes_of_hex id, n_of_dec sn)]
-          | ["X"] -> [Bcast.ORestart]
-          | ["K"; id; k] -> [Bcast.OSetKey (bytes_of_hex id, n_of_dec k)]
-          | ["EB"; id; g] -> Bcast.event_begin (bytes_of_hex id) (n_of_dec g)
-          | ["EE"; id; g; r] -> Bcast.event_end (bytes_of_hex id) (n_of_dec g)
-                                  (if r = "fail" then Bcast.ReqFail else Bcast.ReqOk (n_of_dec r))
-          | ["LB"; id] -> Bcast.poll_begin (bytes_of_hex id)
-          | ["LE"; id; r] -> Bcast.poll_end (bytes_of_hex id) (if r = "fail" then Bcast.PollFail else Bcast.PollOk (n_of_dec r))
+          | ["A"; hdr; body] -> xo [Bcast.OAdv (bytes_of_hex hdr, body_of body)]
+          | ["R"; id; sn] -> xo [Bcast.OPlain (bytes_of_hex id, n_of_dec sn)]
+          | ["O"; id; sn] -> xo [Bcast.OPopulate (bytes_of_hex id, n_of_dec sn)]
+          | ["U"; id; sn] -> xo [Bcast.OUpdate (bytes_of_hex id, n_of_dec sn)]
+          | ["X"] -> xo [Bcast.ORestart]
+          | ["K"; id; k] -> xo [Bcast.OSetKey (bytes_of_hex id, n_of_dec k)]
+          | ["EB"; id; g] -> xo (Bcast.event_begin (bytes_of_hex id) (n_of_dec g))
+          | ["EE"; id; g; r] -> xo (Bcast.event_end (bytes_of_hex id) (n_of_dec g)
+                                  (if r = "fail" then Bcast.ReqFail else Bcast.ReqOk (n_of_dec r)))
+          | ["LB"; id] -> xo (Bcast.poll_begin (bytes_of_hex id))
+          | ["LE"; id; r] -> xo (Bcast.poll_end (bytes_of_hex id) (if r = "fail" then Bcast.PollFail else Bcast.PollOk (n_of_dec r)))
+          | ["DB"; id; cs; sg; keep] -> [BcastDb.XDb (bytes_of_hex id, chars_of cs, sg = "1", keep = "1")]
+          | ["RL"; id] -> [BcastDb.XReload (bytes_of_hex id)]
+          | ["CB"; id; sn] -> BcastDb.cfg_begin (bytes_of_hex id) (n_of_dec sn)
+          | ["CE"; id; cs; sg; g] -> BcastDb.cfg_end (bytes_of_hex id) (chars_of cs) (sg = "1") (n_of_dec g)
           | _ -> failwith "event" in
         let last = ref None in
-        Stdlib.List.iter (fun op -> let ((c', o), cl) = Bcast.apply !c op in c := c'; last := Some (op, o, cl)) ops;
+        Stdlib.List.iter (fun op -> let ((st', o), cl) = BcastDb.xapply !st op in st := st'; last := Some (op, o, cl)) ops;
+        let c = ref (!st).BcastDb.x_c in
         (match !last with
-         | Some (Bcast.OAdv _, o, cl) ->
+         | Some (BcastDb.XOp (Bcast.OAdv _), o, cl) ->
              out_str o ^ "/" ^ calls_str cl ^ "/" ^ sns_str !c ^ "/" ^ psns_str !c ^ "/" ^ (if Bcast.falls_back o then "1" else "0") ^ "/" ^ keys_str !c
          | _ -> "op/-/" ^ sns_str !c ^ "/" ^ psns_str !c ^ "/0/" ^ keys_str !c)) evs in
       if outs = [] then "." else Stdlib.String.concat " " outs
